@@ -175,3 +175,13 @@ fn c11_register_and_cleanup_step() {
     }
     core::mem::forget((ticks, buffer));
 }
+
+/// Accessor for harnesses in other modules: entities and change tick registered for an in-flight
+/// mutate message.
+pub(crate) fn in_flight(ticks: &ClientTicks, index: MutateIndex) -> Option<(&[Entity], Tick)> {
+    ticks.mutations.get(&index).map(|info| (&info.entities[..], info.tick))
+}
+
+pub(crate) fn in_flight_count(ticks: &ClientTicks) -> usize {
+    ticks.mutations.len()
+}
